@@ -62,6 +62,7 @@ package bcl
 // Dump: every section is written in the documented order with the documented
 // encoding, and every scratch buffer is large enough (call-site assertions).
 //@ func (*Prog).Dump
+//@   ghost dumps = g.dumps + 1
 //@   requires complete: prog.linePos != nil
 //@   requires storable_constants: forall i int :: 0 <= i && i < len(prog.constants) ==> storable(prog.constants[i])
 //@   requires nonneg_positions: (forall i int :: 0 <= i && i < len(prog.positions) ==> prog.positions[i] >= 0) && (forall i int :: 0 <= i && i < len(prog.linePos.lfs) ==> prog.linePos.lfs[i] >= 0)
